@@ -15,9 +15,9 @@ from vf.engine import Ctx, Facet, InvalidCase, Prop
 from vf.util import close_instance, diff_snap, etype_name, new_instance, run, snapshot
 
 SETUP = [
-    "CREATE TABLE TT (C_INT INT, C_BIG BIGINT, C_NUM NUMBER(10,2), C_N0 NUMBER(12,0), C_FLT FLOAT, C_STR VARCHAR(30), C_BOOL BOOLEAN, C_DATE DATE, C_TIME TIME, C_TS TIMESTAMP_NTZ, C_TZ TIMESTAMP_TZ, C_BIN BINARY, C_VAR VARIANT)",
-    "INSERT INTO TT SELECT 1, 9000000000, 12.34, 77, 1.5, 'abc', TRUE, '2020-02-29', '12:34:56', '2020-01-02 03:04:05.000006', '2020-01-02 03:04:05+00:00', NULL, PARSE_JSON('{\"a\": [1, 2]}')",
-    "INSERT INTO TT SELECT 2, -5, -0.01, 0, -2.25, '', FALSE, '1969-12-31', '00:00:00', '1969-12-31 23:59:59.999999', '1969-12-31 23:59:59+00:00', NULL, PARSE_JSON('[]')",
+    "CREATE TABLE TT (C_INT INT, C_BIG BIGINT, C_NUM NUMBER(10,2), C_N0 NUMBER(12,0), C_FLT FLOAT, C_STR VARCHAR(30), C_BOOL BOOLEAN, C_DATE DATE, C_TIME TIME, C_TS TIMESTAMP_NTZ, C_TZ TIMESTAMP_TZ, C_BIN BINARY, C_VAR VARIANT, C_N38 NUMBER(38,12), C_N20 NUMBER(20,10))",
+    "INSERT INTO TT SELECT 1, 9000000000, 12.34, 77, 1.5, 'abc', TRUE, '2020-02-29', '12:34:56', '2020-01-02 03:04:05.000006', '2020-01-02 03:04:05+00:00', NULL, PARSE_JSON('{\"a\": [1, 2]}'), 1.5, 123456789.0123456789",
+    "INSERT INTO TT SELECT 2, -5, -0.01, 0, -2.25, '', FALSE, '1969-12-31', '00:00:00', '1969-12-31 23:59:59.999999', '1969-12-31 23:59:59+00:00', NULL, PARSE_JSON('[]'), -0.000000000001, 0",
     "INSERT INTO TT (C_INT) VALUES (NULL)",
     "CREATE TABLE SRC (K INT, V VARCHAR)",
     "INSERT INTO SRC VALUES (1, 'one'), (5, 'five')",
@@ -27,7 +27,7 @@ SETUP = [
     "SET MYVAR = 3",
 ]
 
-COLS = ["C_INT", "C_BIG", "C_NUM", "C_N0", "C_FLT", "C_STR", "C_BOOL", "C_DATE", "C_TIME", "C_TS", "C_TZ", "C_BIN", "C_VAR"]
+COLS = ["C_INT", "C_BIG", "C_NUM", "C_N0", "C_FLT", "C_STR", "C_BOOL", "C_DATE", "C_TIME", "C_TS", "C_TZ", "C_BIN", "C_VAR", "C_N38", "C_N20"]
 
 # (kind, sql) — every statement succeeds on the SETUP state
 STATEMENTS: list[tuple[str, str]] = (
@@ -53,6 +53,7 @@ STATEMENTS: list[tuple[str, str]] = (
         ("literals-typed", "SELECT '2020-01-01'::DATE AS A, '12:00:00'::TIME AS B, '2020-01-01 00:00:00'::TIMESTAMP_NTZ AS C, 1::BIGINT AS D, 2.50::NUMBER(5,2) AS E"),
         ("string-functions", "SELECT UPPER(C_STR) AS A, LENGTH(C_STR) AS B, C_STR || 'x' AS C, TRIM(C_STR) AS D FROM TT"),
         ("date-functions", "SELECT DATEADD(DAY, 1, C_DATE) AS A, DATEDIFF(DAY, C_DATE, '2021-01-01'::DATE) AS B, TO_DATE('2020-01-01') AS C, TO_TIMESTAMP(0) AS D FROM TT"),
+        ("decimal-wide-scale", "SELECT TO_DECIMAL('1.25', 25, 15) AS A, C_N38 * 1 AS B, C_N20 + C_N20 AS C, 1.000000000001 AS D FROM TT"),
         ("decimal-functions", "SELECT TO_DECIMAL('1.25', 10, 2) AS A, TO_NUMBER('7') AS B, TRY_TO_DECIMAL('x', 10, 2) AS C, ROUND(C_NUM, 1) AS D FROM TT"),
         ("json", "SELECT PARSE_JSON('{\"k\": 1}') AS A, C_VAR:a AS B, C_VAR:a[0]::INT AS C, OBJECT_CONSTRUCT('k', 1) AS D, ARRAY_SIZE(C_VAR) AS E FROM TT"),
         ("array-agg", "SELECT ARRAY_AGG(C_INT) AS A FROM TT"),
@@ -128,7 +129,7 @@ NAMES = {0: "FIXED", 1: "REAL", 2: "TEXT", 3: "DATE", 5: "VARIANT", 7: "TIMESTAM
 DECLARED = {
     "C_INT": (FIXED, 38, 0), "C_BIG": (FIXED, 38, 0), "C_NUM": (FIXED, 10, 2), "C_N0": (FIXED, 12, 0), "C_FLT": (REAL, None, None),
     "C_STR": (TEXT, None, None), "C_BOOL": (BOOLEAN, None, None), "C_DATE": (DATE, None, None), "C_TIME": (TIME, None, None),
-    "C_TS": (TIMESTAMP_NTZ, None, None), "C_TZ": (TIMESTAMP_TZ, None, None), "C_BIN": (BINARY, None, None), "C_VAR": (VARIANT, None, None),
+    "C_TS": (TIMESTAMP_NTZ, None, None), "C_TZ": (TIMESTAMP_TZ, None, None), "C_BIN": (BINARY, None, None), "C_VAR": (VARIANT, None, None), "C_N38": (FIXED, 38, 12), "C_N20": (FIXED, 20, 10),
 }
 
 
@@ -340,6 +341,107 @@ def run_description(case, ctx: Ctx) -> None:
         close_instance(twin)
 
 
+# ------------------------------------------------------------------------------------------ one cursor, many statements
+
+SEQ_STATEMENTS = [
+    "SELECT * FROM SRC ORDER BY K",
+    "SELECT * FROM VS",
+    "SELECT K, V FROM SRC ORDER BY K",
+    "SELECT {p} AS P",
+    "SELECT {p} AS P, K FROM SRC WHERE K = {p}",
+    "ALTER TABLE SRC ADD COLUMN EXTRA{n} INT",
+    "ALTER TABLE SRC DROP COLUMN V",
+    "CREATE OR REPLACE TABLE SRC (K VARCHAR, V INT, W FLOAT)",
+    "CREATE OR REPLACE VIEW VS AS SELECT K FROM SRC",
+    "CREATE OR REPLACE VIEW VS AS SELECT K, K AS K2 FROM SRC",
+    "INSERT INTO SRC (K) VALUES (3)",
+    "USE SCHEMA S9",
+    "USE SCHEMA S1",
+    "SELECT COUNT(*) AS N FROM SRC",
+    "UPDATE SRC SET K = K",
+    "SHOW TERSE TABLES IN SCHEMA DB1.S1",
+    "DESCRIBE TABLE SRC",
+]
+PVALS = [1, "x", 2.5, None, True]
+
+
+@st.composite
+def _seq_case(draw, tier):
+    n = draw(st.integers(2, 7))
+    return {
+        "stmts": [[draw(st.integers(0, len(SEQ_STATEMENTS) - 1)), draw(st.integers(0, len(PVALS) - 1)), draw(st.integers(0, len(PVALS) - 1))] for _ in range(n)],
+        "style": draw(st.sampled_from(["pyformat", "qmark", "qmark"])),
+        "cursor": draw(st.sampled_from(["tuple", "dict"])),
+        "read_every": draw(st.booleans()),
+    }
+
+
+def run_sequence(case, ctx: Ctx) -> None:
+    if case["style"] not in ("pyformat", "qmark") or any(not (isinstance(x, list) and len(x) == 3 and 0 <= x[0] < len(SEQ_STATEMENTS) and 0 <= x[1] < len(PVALS) and 0 <= x[2] < len(PVALS)) for x in case["stmts"]):
+        raise InvalidCase()
+    cls = DictCursor if case["cursor"] == "dict" else SnowflakeCursor
+    fs, conn = _prepare(case["style"], "other-schema", False)
+    try:
+        conn.cursor().execute("CREATE VIEW VS AS SELECT K, V FROM SRC")
+        conn.cursor().execute("CREATE TABLE S9.SRC (ONLY_HERE INT)")
+        conn.cursor().execute("CREATE VIEW S9.VS AS SELECT ONLY_HERE FROM S9.SRC")
+        cur = conn.cursor(cls)
+        seen_texts: dict[str, int] = {}
+        n_ok = 0
+        for k, (si, p1, p2) in enumerate(case["stmts"]):
+            tpl = SEQ_STATEMENTS[si]
+            ph = "?" if case["style"] == "qmark" else "%s"
+            sql = tpl.replace("{p}", ph).replace("{n}", str(k))
+            np_ = tpl.count("{p}")
+            vals = [PVALS[p1], 1 if np_ == 2 else PVALS[p2]][:np_]
+            params = (list(vals) if case["style"] == "qmark" else tuple(vals)) if np_ else None
+            o = run(cur, sql, params, fetch=False)
+            if not o.ok:
+                continue  # e.g. the column was already dropped: not this facet's subject
+            repeated = sql in seen_texts
+            seen_texts[sql] = seen_texts.get(sql, 0) + 1
+            try:
+                d = cur.description if (case["read_every"] or repeated or k == len(case["stmts"]) - 1) else None
+                rows = cur.fetchall()
+            except Exception as e:
+                ctx.fail(f"C06|sequence|description-or-fetch-raises|{etype_name(e)}", f"statement {k} `{sql}` {params!r} after {[SEQ_STATEMENTS[x[0]] for x in case['stmts'][:k]]}: {e}")
+                return
+            n_ok += 1
+            if d is None:
+                continue
+            if repeated:
+                ctx.cls("same-text-executed-again")
+                ctx.nontrivial = True
+            where = f"statement {k} `{sql}` {params!r} after {[SEQ_STATEMENTS[x[0]] for x in case['stmts'][:k]]}"
+            if rows:
+                width = len(rows[0])
+                if width != len(d):
+                    ctx.fail(f"C06|sequence|width-differs|{'same-text-again' if repeated else 'first-time'}", f"{where}: description has {len(d)} entries {[c.name for c in d]}, rows have {width}")
+                    return
+                if case["cursor"] == "dict" and list(rows[0].keys()) != [c.name for c in d]:
+                    ctx.fail(f"C06|sequence|names-differ-from-dict-keys|{'same-text-again' if repeated else 'first-time'}", f"{where}: {[c.name for c in d]} vs {list(rows[0].keys())}")
+                    return
+                for r in rows:
+                    vals_ = list(r.values()) if isinstance(r, dict) else list(r)
+                    for md, v in zip(d, vals_):
+                        why = _value_agrees(md, v)
+                        if why and why != "FIXED-scale0-but-Decimal":
+                            ctx.fail(f"C06|sequence|type-disagrees|{why}|{'same-text-again' if repeated else 'first-time'}", f"{where}: column {md.name} described {NAMES.get(md.type_code, md.type_code)}({md.precision},{md.scale}) holds {v!r}")
+                            return
+            else:
+                # no rows to compare with: compare with a fresh cursor describing the same statement now
+                try:
+                    d2 = conn.cursor().describe(sql, params) if sql.lstrip().upper().startswith("SELECT") else None
+                except Exception:
+                    d2 = None
+                if d2 is not None and d2 != d:
+                    ctx.fail(f"C06|sequence|stale-description|{'same-text-again' if repeated else 'first-time'}", f"{where}: {d} vs fresh describe {d2}")
+                    return
+        ctx.nontrivial = ctx.nontrivial or n_ok >= 3
+    finally:
+        close_instance(fs)
+
+
 PROP = Prop(
     id="C06",
     facets=[
@@ -357,10 +459,26 @@ PROP = Prop(
                 "fresh twin (which must not execute the statement), and reading it leaves rows, state snapshot, context and open transaction "
                 "unchanged. Non-trivial: any statement but a plain SELECT *, or a mid-fetch read."
             ),
-            quick=150,
+            quick=110,
             thorough=1500,
-            budget_quick=60,
-        )
+            budget_quick=45,
+        ),
+        Facet(
+            name="same_cursor_sequences",
+            strategy=_seq_case,
+            run=run_sequence,
+            rule=(
+                "2-7 statements on ONE cursor drawn (with repeats) from queries, parameterised queries (qmark/pyformat, values of "
+                "different Python types for the same text), DDL that changes the shape of those queries' results (ALTER ADD/DROP COLUMN, "
+                "CREATE OR REPLACE TABLE/VIEW), USE SCHEMA to a schema holding same-named objects, DML, SHOW, DESCRIBE; description is "
+                "read after every statement (or only when a text is executed again) and must agree with the rows fetched from that very "
+                "execution (width, DictCursor keys, value types). Non-trivial: a statement text executed again after the shape changed, or >=3 statements."
+            ),
+            quick=60,
+            thorough=800,
+            quick_shards=4,
+            budget_quick=40,
+        ),
     ],
     assumptions=["internal_size/display_size are not asserted", "only statements that succeed are in the catalogue (twin run must succeed)"],
 )
